@@ -18,6 +18,7 @@ import time
 HERE = os.path.dirname(os.path.dirname(os.path.abspath(__file__)))
 REPO = os.path.abspath(os.environ.get('FXSIM_REPO', '/repo'))
 PROPS = ('C02', 'C04', 'C10', 'C20')
+QUICK_RUNS = 24000
 
 
 def sh(cmd, env=None, cwd=None, timeout=3600):
@@ -31,7 +32,8 @@ def targets():
     if os.path.exists(idx):
         for m in json.load(open(idx)):
             out.append({'id': m['id'], 'patch': os.path.join(HERE, 'mutants', m['patch']),
-                        'property': m.get('property'), 'what': m.get('what'), 'kind': m.get('kind')})
+                        'property': m.get('property'), 'what': m.get('what'), 'kind': m.get('kind'),
+                        'properties': m.get('properties')})
     sd = os.path.join(HERE, 'seeded')
     if os.path.isdir(sd):
         for d in sorted(os.listdir(sd)):
@@ -56,7 +58,7 @@ def one(t, runs, use_examples):
             res['status'] = 'skipped: patch does not apply to the current tree'
             res['patch_output'] = out[-300:]
             return res
-        props = [t['property']] if t['property'] in PROPS else list(PROPS)
+        props = [t['property']] if t['property'] in PROPS else list(t.get('properties') or PROPS)
         caught = False
         for prop in props:
             env = dict(os.environ)
@@ -66,9 +68,14 @@ def one(t, runs, use_examples):
                 env['FXSIM_NO_EXAMPLES'] = '1'
             t0 = time.time()
             rc, out = sh([os.path.join(HERE, 'check'), prop, '--runs', str(runs)], env=env, cwd=HERE)
+            used = runs
+            if rc == 0 and runs < QUICK_RUNS and len(props) <= 2:
+                # not found in the short batch: give it the size of the quick tier
+                rc, out = sh([os.path.join(HERE, 'check'), prop, '--runs', str(QUICK_RUNS)], env=env, cwd=HERE)
+                used = QUICK_RUNS
             classes = re.findall(r'violation class clause=(\S+) culprit=(\S+) first at run (\d+), minimised (\d+) -> (\d+) ops', out)
             replays = re.findall(r'VIOLATION property=\S+ replay=(\S+)', out)
-            entry = {'exit': rc, 'wall_s': round(time.time() - t0, 1),
+            entry = {'exit': rc, 'runs': used, 'wall_s': round(time.time() - t0, 1),
                      'classes': [{'clause': c[0], 'culprit': c[1], 'first_run': int(c[2]),
                                   'ops_before': int(c[3]), 'ops_after': int(c[4])} for c in classes[:6]]}
             if rc == 1 and replays:
@@ -81,7 +88,7 @@ def one(t, runs, use_examples):
             elif rc not in (0, 1):
                 entry['output_tail'] = out[-600:]
             res['checks'][prop] = entry
-            if caught and t['property'] in PROPS:
+            if caught and (t['property'] in PROPS or t.get('properties')):
                 break
         res['status'] = 'caught' if caught else 'MISSED'
         return res
